@@ -361,12 +361,18 @@ def gadgetOf (d : Def) (B : Bnds) (o : Opts) (n : Nat) : Out :=
   | .count as => gCount d.res as B n
   | _ => { unmodelled := true }
 
+def isBin01 (i : VarInfo) : Bool := decide (i = VarInfo.binary)
+
 /-- lowering of the rows a gadget emits when only linear rows are accepted: indicators → big-M rows,
 nested linear functional constraints → their equality row -/
 def lowerCon (B : Bnds) (o : Opts) : Con → Out
-  | .indLin b bv .le body rhs => gIndLE b bv body rhs B o
-  | .indLin b bv .ge body rhs => gIndGE b bv body rhs B o
-  | .indLin b bv .eq body rhs => gIndEQ b bv body rhs B o
+  | .indLin b bv k body rhs =>
+    if decide (bv ≤ 1) && isBin01 (B b) then
+      (match k with
+       | .le => gIndLE b bv body rhs B o
+       | .ge => gIndGE b bv body rhs B o
+       | .eq => gIndEQ b bv body rhs B o)
+    else { cons := [.indLin b bv k body rhs] }
   | .func r .none (.affine body c) => gLFC r body c
   | k => { cons := [k] }
 
@@ -390,6 +396,7 @@ structure Block where
   d : Def
   vars : List VarInfo      -- auxiliary variables created
   cons : List Con          -- delivered rows
+  raw : List Con := []     -- the rows the gadget emitted (before lowering)
   lo : Nat
   native : Bool            -- delivered as the functional constraint itself
   refusal : Option Refusal := none
@@ -410,14 +417,14 @@ def convDefs (cfg : Cfg) : List Def → Bnds → Nat → List Block
       let g := gadgetOf d B cfg.opts n
       let B' := extB B n g.vars
       let low : Out := if cfg.acc = .linear then lowerCons B' cfg.opts g.cons else { cons := g.cons }
-      { d := d, vars := g.vars, cons := low.cons, lo := n, native := false,
+      { d := d, vars := g.vars, cons := low.cons, raw := g.cons, lo := n, native := false,
         refusal := (match g.refusal with | some r => some r | none => low.refusal),
         unmodelled := g.unmodelled || low.unmodelled } :: convDefs cfg t B' (n + g.vars.length)
 
 /-- stable insertion sort by keeper rank -/
 def insRank (d : Def) : List Def → List Def
   | [] => [d]
-  | e :: t => if d.f.rank < e.f.rank then d :: e :: t else e :: insRank d t
+  | e :: t => if d.f.rank ≤ e.f.rank then d :: e :: t else e :: insRank d t
 def sortRank (l : List Def) : List Def := l.foldr insRank []
 
 /-- output of the reference converter -/
@@ -505,8 +512,6 @@ def finiteVI (i : VarInfo) : Bool :=
 
 
 /-! ## decidable well-formedness checks of the converter's own output (membership in the fragment) -/
-
-def isBin01 (i : VarInfo) : Bool := decide (i = VarInfo.binary)
 
 /-- result bounds as created, fragment type, logical arguments binary -/
 def typedDef (B : Bnds) (d : Def) : Bool :=
